@@ -88,6 +88,7 @@ type Hist struct {
 	ownVPs    []*aVP
 	valids    []validCase
 	nputs     int
+	prevLast  *lastP
 	prevPool  map[int]bool
 	desc      []string
 	failed    bool
